@@ -841,6 +841,21 @@ func c14encodesSorted(p *Program, r *Report, bld *ssa.Function) {
 	r.Floor("C14.every", 1)
 }
 
+// sameCellLoad: the same SSA value, or two loads of one local variable's cell (a variable captured by a closure is
+// re-loaded at every use; whether it was assigned in between is checked where it matters).
+func sameCellLoad(a, b ssa.Value) bool {
+	if a == b {
+		return true
+	}
+	la, ok1 := a.(*ssa.UnOp)
+	lb, ok2 := b.(*ssa.UnOp)
+	if !ok1 || !ok2 || la.Op != token.MUL || lb.Op != token.MUL || la.X != lb.X {
+		return false
+	}
+	_, isCell := la.X.(*ssa.Alloc)
+	return isCell
+}
+
 func isInLoop(b *ssa.BasicBlock) bool {
 	for d := b; d != nil; d = d.Idom() {
 		if isLoopHeader(d) {
@@ -869,7 +884,7 @@ func rangesWhole(b *ssa.BasicBlock, ia *ssa.IndexAddr) bool {
 			continue
 		}
 		ln, ok := c.Y.(*ssa.Call)
-		if !ok || !isBuiltin(&ln.Call, "len") || ln.Call.Args[0] != ia.X {
+		if !ok || !isBuiltin(&ln.Call, "len") || !sameCellLoad(ln.Call.Args[0], ia.X) {
 			continue
 		}
 		var phi *ssa.Phi
